@@ -126,19 +126,19 @@ type ctxKey string
 
 type reqInfo struct {
 	cancel context.CancelFunc
-	id   int
-	b    string
-	plan string
-	held chan string // non-nil for plan "hold": receives the final plan
+	id     int
+	b      string
+	plan   string
+	held   chan string // non-nil for plan "hold": receives the final plan
 }
 
 // scripted transport shared by all backends of one script
 type fakeRT struct {
 	reqH, trH string // configured request-id / trace header names
-	mu      sync.Mutex
-	byHost  map[string]string // host -> backend name
-	mode    map[string]string // backend name -> persistent behaviour override
-	heldSig chan int
+	mu        sync.Mutex
+	byHost    map[string]string // host -> backend name
+	mode      map[string]string // backend name -> persistent behaviour override
+	heldSig   chan int
 }
 
 type failingBody struct {
@@ -163,7 +163,9 @@ type namedRT struct {
 	name string
 }
 
-func (n *namedRT) RoundTrip(r *http.Request) (*http.Response, error) { return n.rt.roundTrip(r, n.name) }
+func (n *namedRT) RoundTrip(r *http.Request) (*http.Response, error) {
+	return n.rt.roundTrip(r, n.name)
+}
 
 func (rt *fakeRT) RoundTrip(r *http.Request) (*http.Response, error) { return rt.roundTrip(r, "") }
 
